@@ -357,7 +357,7 @@ class Builder:
         self.buf.append(s); self.pos += n
 
     def add_gene(self, tx_seq, strand=1, n_exons=1, coding=True, cds_start=None, cds_end=None, sec=(),
-                 tags=(), protein=None, intron=(2, 9), biotype=None, isoforms=0, flank=(0, 0), exon_lens=None):
+                 tags=(), protein=None, intron=(2, 9), biotype=None, isoforms=0, flank=(0, 0), exon_lens=None, iso_terminal=False):
         """Place a transcript given in transcript orientation; returns its Tx.
         isoforms: number of extra isoforms derived by skipping one internal exon (non-coding)."""
         r = self.r
@@ -390,9 +390,13 @@ class Builder:
         self.ref.genes[gid] = g
         self.ref.txs[tid] = t
         for k in range(isoforms):
-            if len(exons) < 3:
+            if iso_terminal and len(exons) >= 2:
+                # an isoform without the first or the last exon: its genomic extent differs from the main transcript's
+                drop = r.choice([0, len(exons) - 1])
+            elif len(exons) < 3:
                 break
-            drop = r.randrange(1, len(exons) - 1)
+            else:
+                drop = r.randrange(1, len(exons) - 1)
             ex2 = [e for i, e in enumerate(exons) if i != drop]
             tid2 = f'ENST{self.n:05d}{chr(ord("A") + k)}.1'.replace('A.1', '1.1').replace('B.1', '2.1')
             tid2 = f'ENST{self.n:05d}{k + 1}.1'
@@ -423,7 +427,7 @@ class Builder:
 
 
 def random_reference(r, n_genes=3, coding_p=0.7, max_exons=3, aa_len=(12, 30), nc_len=(40, 110),
-                     strands=(1, -1), sec_p=0.0, nf_p=0.0, isoform_p=0.0, utr5=(3, 12), utr3=(6, 20), flank_p=0.0):
+                     strands=(1, -1), sec_p=0.0, nf_p=0.0, isoform_p=0.0, utr5=(3, 12), utr3=(6, 20), flank_p=0.0, iso_terminal_p=0.0):
     b = Builder(r)
     for _ in range(n_genes):
         strand = r.choice(strands)
@@ -442,11 +446,12 @@ def random_reference(r, n_genes=3, coding_p=0.7, max_exons=3, aa_len=(12, 30), n
                 prot = derive_protein(seq, cs, secs)
             fl = (r.randrange(0, 7), r.randrange(0, 7)) if r.random() < flank_p else (0, 0)
             b.add_gene(seq, strand, nex, True, cs, ce, secs, tags, prot,
-                       isoforms=1 if r.random() < isoform_p else 0, flank=fl)
+                       isoforms=1 if r.random() < isoform_p else 0, flank=fl, iso_terminal=bool(iso_terminal_p) and r.random() < iso_terminal_p)
         else:
             seq = rand_noncoding(r, r.randrange(*nc_len))
             fl = (r.randrange(0, 7), r.randrange(0, 7)) if r.random() < flank_p else (0, 0)
-            b.add_gene(seq, strand, nex, False, isoforms=1 if r.random() < isoform_p else 0, flank=fl)
+            b.add_gene(seq, strand, nex, False, isoforms=1 if r.random() < isoform_p else 0, flank=fl,
+                       iso_terminal=bool(iso_terminal_p) and r.random() < iso_terminal_p)
     return b.finish()
 
 
